@@ -95,6 +95,20 @@ def main():
     a = parse()
     if a.child:
         return child(a)
+    if a.replay:
+        # a replay file records the seed and tier of the run that produced it; every random choice of a check
+        # derives from the seed, so re-running the check under them regenerates the recorded input
+        try:
+            r = json.load(open(a.replay))
+            print("REPLAY property=%s key=%s\n  %s" % (r.get("property"), r.get("key"), str(r.get("what"))[:400]))
+            if r.get("seed") is not None:
+                os.environ["VERIF_SEED"] = str(r["seed"])
+                a.seed = int(r["seed"])
+            if r.get("tier") in ("quick", "thorough"):
+                a.tier = r["tier"]
+        except Exception as e:
+            print("cannot read replay file %s: %s" % (a.replay, e))
+            return 2
     return parent(a)
 
 
